@@ -28,6 +28,9 @@ def plan(tier):
         for c in (1, 2, 3, 5):
             for l in ((4, 4), (5, 3), (2, 5), (3, 3, 3), (0, 2), (1, 1)):
                 pl.append((PG.map_prog(c, l, 2, None, shape=shape), 0, PT))
+    # the lazy result iterator consumed only partly, then dropped (the rest is cancelled)
+    for c, l, take in ((1, (4,), 2), (2, (5,), 3), (2, (4, 4), 1), (3, (5,), 0), (1, (3,), 3)):
+        pl.append((PG.map_partial(c, l, take), 1 if (c, take) in ((2, 3), (1, 2)) else 0, PT))
     if tier == "thorough":
         pl += [(PG.cancel_prog(1), 2, PT), (PG.cancel_two_threads(1), 2, dict(kinds=("P",)))]
     # source-line granularity (one preemption at any line of loky run by a parent thread)
